@@ -12,7 +12,7 @@ import sys
 
 sys.path.insert(0, os.path.dirname(os.path.dirname(os.path.abspath(__file__))))
 
-from simkit.world import World  # noqa: E402
+from simkit.world import World, _REAL  # noqa: E402
 from simkit.sched import SimAbort, SimCrash  # noqa: E402
 from checks import common as C  # noqa: E402
 from checks import upstream as U  # noqa: E402
@@ -34,8 +34,9 @@ COMPONENTS = {
     'real': ['mapproxy.cache.tile.TileManager/TileCreator/split_meta_tiles', 'mapproxy.cache.base.TileLocker',
              'mapproxy.util.lock.FileLock + lockfile + cleanup_lockdir', 'mapproxy.cache.file.FileCache',
              'mapproxy.cache.compact v1/v2', 'mapproxy.grid.MetaGrid/TileGrid', 'mapproxy.util.async_ ThreadPool (real threads)',
-             'PIL encode/decode'],
-    'stub': ['upstream source (position+generation encoding SimSource at the TileManager `sources` seam)',
+             'PIL encode/decode', 'mapproxy.cache.mbtiles MBTilesCache / MBTilesLevelCache on the real SQLite library (tmpfs file)'],
+    'stub': ['sqlite3 module as seen by mapproxy.cache.mbtiles (checks/simsql.py: every call is a pre-emption point, busy waits run '
+             'in simulated time; the SQL itself is executed by the real library)', 'upstream source (position+generation encoding SimSource at the TileManager `sources` seam)',
              'file system + flock (SimFS)', 'clock', 'scheduler choice', 'queue.Queue (SimQueue)'],
     'outside_the_seams': ['lock-identity cases: two real python subprocesses with different PYTHONHASHSEED (no simulator inside)'],
 }
@@ -47,12 +48,18 @@ ASSUMPTIONS = [
     'one fetch per meta tile is asserted in the fault-free modes; with upstream failures at most one SUCCESSFUL fetch per meta '
     'tile; with a killed process the fetches of the killed process are not counted',
     'independence is asserted in simulated time: a request for another meta tile completes while the holder is stalled',
+    'SQLite backends: requests run inside TileManager.session() (cache.cleanup() at the end, as the services do); no process '
+    'kills (connections of a killed simulated process would stay open inside the one interpreter)',
 ]
 
 BACKENDS = [({'type': 'file', 'layout': 'tc'}, 3), ({'type': 'file', 'layout': 'tc', 'link': 'symlink'}, 2),
             ({'type': 'file', 'layout': 'tms', 'link': 'hardlink'}, 1), ({'type': 'file', 'layout': 'tms'}, 1), ({'type': 'file', 'layout': 'quadkey'}, 1),
             ({'type': 'file', 'layout': 'arcgis'}, 1), ({'type': 'compact', 'version': 1}, 3), ({'type': 'compact', 'version': 2}, 3)]
+# SQLite backends: the database is the real library on a tmpfs file, its calls are pre-emption points and its busy waits run in
+# simulated time (checks/simsql.py); TileManager-level runs without process kills only
+SQL_BACKENDS = [({'type': 'mbtiles'}, 2), ({'type': 'sqlite'}, 1)]
 LOCKDIR = '/simfs/locks'
+_seq = [0]
 
 
 IDENTITY_SCRIPT = r'''
@@ -129,11 +136,13 @@ def gen(t, tier):
     meta = t.pick([[1, 1], [2, 2], [2, 2], [3, 3], [2, 1]])
     bulk = bool(meta != [1, 1] and t.chance(0.2))
     mode = t.weighted([('plain', 5), ('stall', 2), ('upfail', 2), ('kill', 2)])
-    sc = {'backend': copy.deepcopy(t.weighted(BACKENDS)), 'level': z, 'meta_size': meta,
+    sc = {'backend': copy.deepcopy(t.weighted(BACKENDS + SQL_BACKENDS)), 'level': z, 'meta_size': meta,
           'meta_buffer': 0 if bulk else t.pick([0, 0, 2, 5]),
           'minimize': bool(t.chance(0.25)) and not bulk, 'bulk': bulk, 'creators': t.pick([1, 1, 2, 3]),
           'policy': t.pick([['sticky', 0.1], ['sticky', 0.3], ['sticky', 0.6], ['random']]), 'mode': mode,
           'bufsize': t.pick([4096, 8192])}
+    if sc['backend']['type'] in ('mbtiles', 'sqlite') and mode == 'kill':
+        mode = sc['mode'] = 'plain'
     if (sc['backend']['type'] == 'compact' or sc['backend'].get('layout') in ('tc', 'tms')) and not sc['backend'].get('link'):
         if not bulk and t.chance(0.3):
             # full stack: WSGI application from the real loader, requests through TMS/WMTS/KML/WMS, simulated HTTP upstream
@@ -433,8 +442,32 @@ def _run_tm(sc, tape):
     viol = []
     killed = []
 
+    sql = sc['backend']['type'] in ('mbtiles', 'sqlite')
+    realdir = None
+    simsql = None
+    if sql:
+        from mapproxy.cache import mbtiles as mbtiles_mod
+        from checks.simsql import SimSqlite
+        _seq[0] += 1
+        realdir = '/dev/shm/verif-c08-%d-%d' % (_REAL['os.getpid'](), _seq[0])
+        os.makedirs(realdir)
+        # the path the cache is configured with has to be the same string in every worker process and run (lock file names
+        # are derived from it): it goes through the worker's current directory
+        old_cwd = os.getcwd()
+        os.chdir(realdir)
+        simsql = SimSqlite(w)
+        w.extra_patches.append((mbtiles_mod, 'sqlite3', simsql))
+        # MBTilesLevelCache guards its per-level dictionary with a threading.Lock held across database calls
+        from simkit.sched import simulate_module_primitives
+        simulate_module_primitives(w, mbtiles_mod)
+
+    def make_cache():
+        if sql:
+            return C.make_cache(sc['backend'], '/proc/self/cwd/cache', sqlite_timeout=30)
+        return C.make_cache(sc['backend'])
+
     def make_tm():
-        cache = C.make_cache(sc['backend'])
+        cache = make_cache()
         locker = TileLocker(LOCKDIR, 60, cache.lock_cache_id)
         src = U.SimSource(w, shared, supports_meta_tiles=not sc['bulk'], image_opts=image_opts)
         return TileManager(grid, cache, [src], 'png', locker, image_opts=image_opts,
@@ -448,7 +481,9 @@ def _run_tm(sc, tape):
                 t0 = w.clock.now
                 rec = {'client': cname, 'req': req, 't0': t0, 'seq0': len(sched.log), 'tiles': [], 'exc': None}
                 try:
-                    tiles = tm.load_tile_coords([tuple(c) for c in req])
+                    # as the services do it: the cache is used inside a session, which ends with cache.cleanup()
+                    with tm.session():
+                        tiles = tm.load_tile_coords([tuple(c) for c in req])
                     sched.check_alive()
                     for c, tile in zip(req, tiles):
                         if tile.source is None:
@@ -483,42 +518,52 @@ def _run_tm(sc, tape):
             sched.crash_proc(task.proc, w.fs)
 
     v = None
-    with w:
-        w.fs.buffer_size = sc['bufsize']
-        if mode == 'kill':
-            sched.on_yield = on_yield
-        first_tm = None
-        for pi, p in enumerate(sc['procs']):
-            proc = w.new_proc('p%d' % pi)
-            tm = make_tm()
-            first_tm = first_tm or tm
-            for ci, reqs in enumerate(p['clients']):
-                sched.spawn(client('p%dc%d' % (pi, ci), tm, reqs), 'p%dc%d' % (pi, ci), proc)
-        if sc.get('stale_locks'):
-            names = set()
-            for p in sc['procs']:
-                for reqs in p['clients']:
-                    for req in reqs:
-                        for c in req:
-                            c = tuple(c)
-                            if first_tm.meta_grid:
-                                c = first_tm.meta_grid.main_tile(c)
-                            names.add(first_tm.locker.lock_filename(Tile(c)))
-            if not w.fs.exists(LOCKDIR):
-                os.makedirs(LOCKDIR)
-            for nm in sorted(names):
-                with open(nm, 'w') as f:
-                    f.write(' 12345\n')
-                w.fs.utime(nm, (w.clock.now - 200, w.clock.now - 200))
-            faults['stale_lock_files'] = len(names)
-        outcome = w.run_tasks()
-        for t in sched.tasks:
-            if t.exc is not None:
-                raise t.exc
-        w.fs.sched = None
-        v = _oracle(sc, w, mode, name, outcome, responses, shared, killed, sched, grid)
+    try:
+        with w:
+            w.fs.buffer_size = sc['bufsize']
+            if mode == 'kill':
+                sched.on_yield = on_yield
+            first_tm = None
+            for pi, p in enumerate(sc['procs']):
+                proc = w.new_proc('p%d' % pi)
+                tm = make_tm()
+                first_tm = first_tm or tm
+                for ci, reqs in enumerate(p['clients']):
+                    sched.spawn(client('p%dc%d' % (pi, ci), tm, reqs), 'p%dc%d' % (pi, ci), proc)
+            if sc.get('stale_locks'):
+                names = set()
+                for p in sc['procs']:
+                    for reqs in p['clients']:
+                        for req in reqs:
+                            for c in req:
+                                c = tuple(c)
+                                if first_tm.meta_grid:
+                                    c = first_tm.meta_grid.main_tile(c)
+                                names.add(first_tm.locker.lock_filename(Tile(c)))
+                if not w.fs.exists(LOCKDIR):
+                    os.makedirs(LOCKDIR)
+                for nm in sorted(names):
+                    with open(nm, 'w') as f:
+                        f.write(' 12345\n')
+                    w.fs.utime(nm, (w.clock.now - 200, w.clock.now - 200))
+                faults['stale_lock_files'] = len(names)
+            outcome = w.run_tasks()
+            for t in sched.tasks:
+                if t.exc is not None:
+                    raise t.exc
+            w.fs.sched = None
+            v = _oracle(sc, w, mode, name, outcome, responses, shared, killed, sched, grid, make_cache, realdir)
+    finally:
+        if realdir is not None:
+            import gc
+            import shutil
+            gc.collect()        # connections of finished threads
+            os.chdir(old_cwd)
+            shutil.rmtree(realdir, ignore_errors=True)
     overlap = _overlap(responses, shared['log'])
     probes = dict(w.fs.probes)
+    if simsql is not None:
+        probes.update(simsql.probes)
     probes['upstream_calls'] = len(shared['log'])
     if overlap:
         probes['requests_overlapping_on_one_meta_tile'] = overlap
@@ -550,7 +595,7 @@ def _overlap(responses, log):
     return n
 
 
-def _oracle(sc, w, mode, name, outcome, responses, shared, killed, sched, grid):
+def _oracle(sc, w, mode, name, outcome, responses, shared, killed, sched, grid, make_cache=None, realdir=None):
     from mapproxy.cache.tile import Tile
     log = shared['log']
     if outcome != 'done':
@@ -578,7 +623,7 @@ def _oracle(sc, w, mode, name, outcome, responses, shared, killed, sched, grid):
                             coord, r['client'], g)}
             served[coord] = g
     # final cache contents through a fresh cache object
-    cache = C.make_cache(sc['backend'])
+    cache = make_cache() if make_cache is not None else C.make_cache(sc['backend'])
     present = {}
     for coord in _all_coords(5):
         t = Tile(coord)
@@ -603,7 +648,7 @@ def _oracle(sc, w, mode, name, outcome, responses, shared, killed, sched, grid):
             return {'sig': 'C08:served-tile-not-cached:%s:%s' % (mode, name),
                     'msg': 'tile %s was served but is not in the cache at quiescence' % (coord,)}
     # raw walk: nothing that is not a tile of the grid
-    msg = _raw_walk(sc, w, cache, present)
+    msg = _raw_walk(sc, w, cache, present) if realdir is None else _raw_rows(realdir, present)
     if msg:
         return {'sig': 'C08:stray-object-in-cache:%s:%s' % (mode, name), 'msg': msg}
     # upstream asked once per meta tile
@@ -659,6 +704,24 @@ def _oracle(sc, w, mode, name, outcome, responses, shared, killed, sched, grid):
                     return {'sig': 'C08:blocked-by-other-meta-tile:%s' % name,
                             'msg': 'request of %s for %s took %.2fs of simulated time while another meta tile\'s creator '
                                    'was stalled for 30s upstream' % (r['client'], sc['free_tile'], r['t1'] - r['t0'])}
+    return None
+
+
+def _raw_rows(realdir, present):
+    """SQLite backends: every row of every database file under the cache directory must be a tile the cache API reports"""
+    import sqlite3
+    for root, dirs, files in sorted(os.walk(realdir)):
+        for fn in sorted(files):
+            if not fn.endswith(('.mbtiles', '.mbtile')):
+                continue
+            db = sqlite3.connect(os.path.join(root, fn))
+            try:
+                rows = db.execute('SELECT tile_column, tile_row, zoom_level FROM tiles').fetchall()
+            finally:
+                db.close()
+            for x, y, z in rows:
+                if (x, y, z) not in present:
+                    return 'database %s holds a row for %s which is not a tile the cache API reports' % (fn, (x, y, z))
     return None
 
 
